@@ -105,7 +105,9 @@ def main():
       {"name": "harness", "path": "harness", "serves_properties": sorted(CLAIMS), "kind_free_text": "Rust harness calling the real code in-process through cfg(optrs_verif) hooks; writes correspondence cases and runs implementation-side oracles"},
       {"name": "translator", "path": "translate", "serves_properties": sorted(CLAIMS), "kind_free_text": "python translator: Rust tables, constants and add_gradient bodies -> Lean data"}],
      "checks": [], "not_applicable": [],
-     "notes": "See DESIGN.md. Every check: translate -> lake build of the property's theorems + axiom audit -> harness/model correspondence -> oracle search -> evidence."}
+     "notes": "See DESIGN.md. Every check: translate -> lake build of the property's theorems + axiom audit -> harness/model correspondence -> oracle search -> evidence. "
+              "When /repo/src differs from BASE_COMMIT the search is steered by the literals on the changed lines (OPTRS_HINTS) and an instrumented twin of the harness measures "
+              "whether added code inside exercised functions is reached by the streams (a broken correspondence of kind 'reach' if not); on the baseline neither runs."}
     for i in range(1, 21):
         pid = f"C{i:02d}"
         if pid in CLAIMS:
